@@ -47,6 +47,10 @@ def mp_tasks(tier):
             T.append(('sx.mpinst', 'concrete_program', (m, t, np_, 'int_ops', 6, 30, seeds)))
             if tier != 'quick':
                 T.append(('sx.mpinst', 'concrete_program', (m, t, np_, 'int_ops', 16, 30, seeds[:6])))
+    if tier == 'quick':          # cheap: the two configurations with comb(m,t) well above t+1 also in the quick tier
+        for m, t in ((6, 2), (7, 3)):
+            for np_ in (False, True):
+                T.append(('sx.mpinst', 'concrete_program', (m, t, np_, 'int_ops', 6, 30, [1, 2])))
     return T
 
 
